@@ -439,9 +439,10 @@ void newlines_cleanup_braces(bool first)
                else
                {
                   // Step back from next to the first non-newline item
-                  Chunk *tmp = next->GetPrev();
+                  Chunk *tmp = next->IsNotNullChunk() ? next->GetPrev() : Chunk::GetTail();
 
-                  while (tmp != pc)
+                  while (  tmp->IsNotNullChunk()
+                        && tmp != pc)
                   {
                      if (tmp->IsComment())
                      {
@@ -456,7 +457,10 @@ void newlines_cleanup_braces(bool first)
                      tmp = tmp->GetPrev();
                   }
                   // Add the newline
-                  newline_iarf(tmp, IARF_ADD);
+                  if (tmp->IsNotNullChunk())
+                  {
+                     newline_iarf(tmp, IARF_ADD);
+                  }
                }
             }
          }
